@@ -22,6 +22,9 @@ type solverCfg struct {
 	keepFiles bool
 }
 
+const zeroRowAxioms = "(declare-const zeroRow (Array Int Int))\n(assert (forall ((x Int)) (! (= (select zeroRow x) 0) :pattern ((select zeroRow x)))))\n"
+const zeroRowConst = "(define-fun zeroRow () (Array Int Int) ((as const (Array Int Int)) 0))\n"
+
 func verdictOf(out string) string {
 	for _, ln := range strings.Split(out, "\n") {
 		ln = strings.TrimSpace(ln)
@@ -43,7 +46,11 @@ func runSolverCtx(parent context.Context, name string, file string, to int, seed
 	defer cancel()
 	switch name {
 	case "cvc5":
-		cmd = exec.CommandContext(ctx, "cvc5", fmt.Sprintf("--tlimit=%d", to*1000), "--enum-inst", fmt.Sprintf("--seed=%d", seed), file)
+		f5 := file
+		if _, err := os.Stat(file + ".cvc5"); err == nil {
+			f5 = file + ".cvc5"
+		}
+		cmd = exec.CommandContext(ctx, "cvc5", fmt.Sprintf("--tlimit=%d", to*1000), "--enum-inst", "--lang=smt2", fmt.Sprintf("--seed=%d", seed), f5)
 	case "z3":
 		cmd = exec.CommandContext(ctx, "z3", fmt.Sprintf("-T:%d", to), fmt.Sprintf("smt.random_seed=%d", seed), file)
 	default:
@@ -87,8 +94,16 @@ func (o *Obl) query(extra ...string) string {
 func dischargeOnce(o *Obl, cfg *solverCfg, idx int, extra ...string) {
 	file := filepath.Join(cfg.tmp, fmt.Sprintf("q%d.smt2", idx))
 	qtext := o.query(extra...)
-	o.hasQuant = strings.Contains(qtext, "(forall ")
-	os.WriteFile(file, []byte(qtext), 0o644)
+	// z3 gets the zero row as a constant array (no quantifier: failed goals then come
+	// back `sat` with a model); cvc5, whose array solver rejects chains over constant
+	// arrays, keeps the axiomatised one
+	z3text := strings.Replace(qtext, zeroRowAxioms, zeroRowConst, 1)
+	o.hasQuant = strings.Contains(z3text, "(forall ")
+	os.WriteFile(file, []byte(z3text), 0o644)
+	os.WriteFile(file+".cvc5", []byte(qtext), 0o644)
+	if !cfg.keepFiles {
+		defer os.Remove(file + ".cvc5")
+	}
 	if !cfg.keepFiles {
 		defer os.Remove(file)
 	}
